@@ -164,6 +164,19 @@ def run(ctx, prop, focus, n_hist, n_stall, stall_programs=1, n_istall=0):
         if i < 2 and ctx.shard == 0:
             ctx.sample({"program": prog, "mode": mode, "p": p, "n_events": len(events),
                         "first_events": [[e[1], e[2], e[3]] for e in events[:25]]})
+    # 1b. thread-creation faults: the OS refuses the next few worker threads of a running pool; what is judged is the
+    #     fault-free behaviour afterwards (everything accepted still runs, the pool still grows to max_threads)
+    if poolmon.install_thread_fault_shim():
+        for i in range(max(4, n_hist // 8)):
+            if ctx.time_left() < 5:
+                break
+            prog = poolmon.gen_program_thread_faults(rng)
+            mode, p = ("none", 0.0) if rng.random() < 0.5 else ("yield", rng.choice([0.05, 0.2]))
+            events, results, run_ = run_one(ctx, prop, inj, prog, mode, rng.randrange(1 << 30), p=p)
+            ctx.count("thread-fault-histories")
+            ctx.count("thread-creations-refused", sum(1 for e in events if e[1] == "thread_start_refused"))
+    else:
+        ctx.count("thread-fault-shim-unavailable")
     # 2. stall sweep: each point against small programs.  The points are the (function, line, thread role) triples
     #    that phase 1 actually saw being executed - no function name of the pool module is assumed
     learned = sorted(inj.seen)
